@@ -424,5 +424,33 @@ pub fn run(ctx: &Ctx, rec: &mut Rec) {
     fq_subtle(ctx, rec);
     #[cfg(feature = "ark")]
     fr_u32_backend(ctx, rec);
+    #[cfg(feature = "ark")]
+    {
+        // degree-1 extension bookkeeping: from_base_prime_field_elems takes exactly one element
+        use ark_ff::Field;
+        macro_rules! arity {
+            ($F:ty, $name:literal) => {{
+                let nm = concat!($name, ": Field::from_base_prime_field_elems (wrong arity)");
+                rec.declare_form(nm);
+                let a = <$F>::from(7u64);
+                for len in [0usize, 1, 2, 3, 17] {
+                    rec.form(nm);
+                    rec.evals += 1;
+                    let v = vec![a; len];
+                    match guarded(|| <$F as Field>::from_base_prime_field_elems(&v)) {
+                        Ok(r) => {
+                            if r.is_some() != (len == 1) || (len == 1 && r != Some(a)) {
+                                rec.violation(format!("{P}:{nm}"), format!("from_base_prime_field_elems on {len} elements returned {}", if r.is_some() { "Some" } else { "None" }), json!({"len": len}));
+                            }
+                        }
+                        Err(pn) => rec.violation(format!("{P}:{nm}:panic"), pn, json!({"len": len})),
+                    }
+                }
+            }};
+        }
+        arity!(Fq, "Fq");
+        arity!(Fr, "Fr");
+        arity!(Fp, "Fp");
+    }
     rec.check_coverage();
 }
